@@ -27,7 +27,9 @@ S_IFDIR, S_IFREG, S_IFLNK, S_IFIFO, S_IFCHR, S_IFBLK = 0o040000, 0o100000, 0o120
 
 
 def gen_name(rng, style):
-    if style == "long":
+    if style == "max":
+        n = rng.range(236, 255)
+    elif style == "long":
         n = rng.weighted([(rng.range(40, 120), 5), (rng.range(120, 255), 3), (255, 1)])
     elif style == "short":
         n = rng.range(1, 8)
@@ -109,8 +111,16 @@ class C10(Check):
         nops = rng.weighted([(rng.range(40, 150), 3), (rng.range(150, 400), 3), (rng.range(400, 900), 2)])
         if tier == "thorough" and rng.chance(0.3):
             nops = rng.range(900, 2500)
-        return {"cfg": cfg, "seed": rng.u64(), "nops": nops, "batches": rng.range(2, 6), "name_style": rng.choice(["long", "long", "mixed", "short"]),
+        spec = {"cfg": cfg, "seed": rng.u64(), "nops": nops, "batches": rng.range(2, 6), "name_style": rng.choice(["long", "long", "mixed", "short"]),
                 "fsck_D": [rng.chance(0.5) for _ in range(6)], "cleanup": rng.chance(0.7), "hot_dirs": rng.range(1, 2)}
+        if rng.chance(0.04):
+            spec.update({"grow": True, "name_style": "max", "nops": rng.range(600, 1100), "hot_dirs": 1, "batches": rng.range(3, 6),
+                         "fsck_D": [True] + [rng.chance(0.3) for _ in range(5)]})
+            cfg["bs"] = 1024
+            cfg["inode_size"] = min(cfg["inode_size"], 256)
+            cfg["features"] = sorted(set(cfg["features"]) | {"dir_index"})
+            cfg["size_kib"] = 16384
+        return spec
 
     # ------------------------------------------------------------------
     def _gen_batch(self, rng, M, spec, n, hosts, hot, indexed=()):
@@ -126,8 +136,13 @@ class C10(Check):
                 continue
             parent = M.obj[pid_]
             names = list(parent["children"])
-            op = rng.weighted([("write", 30), ("mkdir", 10), ("symlink", 8), ("mknod", 4), ("ln", 8), ("rm", 22 if len(names) > 5 else 4),
-                               ("rmdir", 5), ("unlink", 4), ("bad", 3)])
+            if spec.get("grow"):
+                # one directory that only grows, with names as long as they get: on small blocks the index gains a second
+                # level and its interior nodes fill up and split
+                op = rng.weighted([("write", 80), ("mkdir", 6), ("ln", 6), ("rm", 4), ("bad", 2)])
+            else:
+                op = rng.weighted([("write", 30), ("mkdir", 10), ("symlink", 8), ("mknod", 4), ("ln", 8), ("rm", 22 if len(names) > 5 else 4),
+                                   ("rmdir", 5), ("unlink", 4), ("bad", 3)])
             base = pd.rstrip("/")
             if op in ("write", "mkdir", "symlink", "mknod", "ln"):
                 name = gen_name(rng, style)
